@@ -81,6 +81,13 @@ def guards(cls):
                % (k, k, fin(cls)))
     out.append('P %s_g_assign_overX %s | X:x1:1 X:x2:2 MA:x1:x2 B:x1 B:x2 U:x2 U:x1 | S:s3:2 U:s3 S:s4:1 U:s4 %s'
                % (k, k, fin(cls)))
+    # move assignment over an owning guard of every kind while another thread uses both locks
+    for m in MODES:
+        a = PRE[m]
+        for m2 in MODES:
+            out.append('P %s_g_assign_%s_vs_%s %s | %s:%s1:1 %s:%s2:2 MA:%s1:%s2 B:%s1 B:%s2 U:%s2 U:%s1 | %s:%s3:2 U:%s3 %s:%s4:1 U:%s4 '
+                       '|| X:x11:1 U:x11 X:x12:2 U:x12'
+                       % (k, m, m2, k, m, a, m, a, a, a, a, a, a, a, m2, PRE[m2], PRE[m2], m2, PRE[m2], PRE[m2]))
     # conversion on non-owning guards, results of conversions, consumed guards
     out.append('P %s_g_conv %s | D:i1 UP:i1:x2 B:x2 DN:x2:i3 B:i3 SIX:i4:1 UP:i4:x5 B:i4 B:x5 DN:x5:i6 B:x5 B:i6 '
                'U:i6 U:x5 U:i4 U:i3 U:x2 U:i1 | %s %s' % (k, k, sec('S', 7), fin(cls)))
